@@ -1,44 +1,197 @@
-(* C19 -- make_Triangle: the un-thickened branch is exact; the thickened branch leaves the surface at large scale *)
-From Coq Require Import ZArith List Bool Lia.
+(* C19 -- make_Triangle (code as of 2fa0af8): both branches, offset, on-surface bound, scale law *)
+From Coq Require Import ZArith List Bool Lia Psatz.
 From MV Require Import Lib.OctZ Model.DisplayExec Model.DisplayTriangle.
 Import ListNotations.
 Open Scope Z_scope.
 
-Lemma dot3_cross_self_l a b : dot3 (cross3 a b) a = 0.
-Proof. destruct a as [[a0 a1] a2], b as [[b0 b1] b2]. unfold dot3, cross3. ring. Qed.
+Lemma plane1 v0 v1 v2 : dot3 (tri_vec v0 v1 v2) (v3sub v1 v0) = 0.
+Proof. destruct v0 as [[x0 y0] z0], v1 as [[x1 y1] z1], v2 as [[x2 y2] z2].
+  unfold tri_vec, cross3, v3sub, v3add, v3neg, dot3. ring. Qed.
+Lemma plane2 v0 v1 v2 : dot3 (tri_vec v0 v1 v2) (v3sub v2 v0) = 0.
+Proof. destruct v0 as [[x0 y0] z0], v1 as [[x1 y1] z1], v2 as [[x2 y2] z2].
+  unfold tri_vec, cross3, v3sub, v3add, v3neg, dot3. ring. Qed.
+Lemma plane0 n v0 : dot3 n (v3sub v0 v0) = 0.
+Proof. destruct n as [[a b] c], v0 as [[x0 y0] z0]. unfold v3sub, v3add, v3neg, dot3. ring. Qed.
+
+Lemma dot_plus n v v0 e :
+  dot3 n (v3sub (v3add (v3smul 1000 v) e) (v3smul 1000 v0)) = 1000 * dot3 n (v3sub v v0) + dot3 n e.
+Proof. destruct n as [[a b] c], v as [[x y] z], v0 as [[x0 y0] z0], e as [[e0 e1] e2].
+  unfold v3sub, v3add, v3neg, v3smul, dot3. ring. Qed.
+Lemma dot_minus n v v0 e :
+  dot3 n (v3sub (v3sub (v3smul 1000 v) e) (v3smul 1000 v0)) = 1000 * dot3 n (v3sub v v0) - dot3 n e.
+Proof. destruct n as [[a b] c], v as [[x y] z], v0 as [[x0 y0] z0], e as [[e0 e1] e2].
+  unfold v3sub, v3add, v3neg, v3smul, dot3. ring. Qed.
+Lemma dot_smul n q e : q * dot3 n e = dot3 n (v3smul q e).
+Proof. destruct n as [[a b] c], e as [[e0 e1] e2]. unfold v3smul, dot3. ring. Qed.
 
 (* not thickened: the three drawn vertices are the facet's vertices (times 1000), exactly in its plane *)
 Lemma triangle_plain_exact_lem mag v0 v1 v2 :
   tri_thickened mag v0 v1 v2 = false ->
-  make_triangle_x1000 mag v0 v1 v2 = [v3smul 1000 v0; v3smul 1000 v1; v3smul 1000 v2] /\
-  Forall (fun d => dot3 (tri_vec v0 v1 v2) (v3sub d (v3smul 1000 v0)) = 0) (make_triangle_x1000 mag v0 v1 v2).
+  make_triangle_x1000 mag v0 v1 v2 = Some [v3smul 1000 v0; v3smul 1000 v1; v3smul 1000 v2] /\
+  Forall (fun d => dot3 (tri_vec v0 v1 v2) (v3sub d (v3smul 1000 v0)) = 0)
+         [v3smul 1000 v0; v3smul 1000 v1; v3smul 1000 v2].
 Proof.
   intros H. unfold make_triangle_x1000. rewrite H. split; [reflexivity|].
   destruct v0 as [[x0 y0] z0], v1 as [[x1 y1] z1], v2 as [[x2 y2] z2].
   repeat constructor; unfold tri_vec, cross3, v3sub, v3add, v3neg, v3smul, dot3; ring.
 Qed.
 
-(* thickened: every drawn vertex is off the plane by exactly |vec|^2 (in units of 1e-3 |vec|): an AREA used as
-   a length *)
-Lemma triangle_thick_offset_lem mag v0 v1 v2 d :
-  tri_thickened mag v0 v1 v2 = true -> In d (make_triangle_x1000 mag v0 v1 v2) ->
-  let n := tri_vec v0 v1 v2 in
-  dot3 n (v3sub d (v3smul 1000 v0)) = dot3 n n \/ dot3 n (v3sub d (v3smul 1000 v0)) = - dot3 n n.
+Lemma tri_repr_spec v0 v1 v2 : tri_repr v0 v1 v2 = true ->
+  let q := tri_root v0 v1 v2 in
+  0 < q /\ q * q * (q * q) = tri_nn v0 v1 v2 /\
+  v3smul q (v3div (tri_vec v0 v1 v2) q) = tri_vec v0 v1 v2.
 Proof.
-  intros H Hin. unfold make_triangle_x1000 in Hin. rewrite H in Hin.
-  destruct v0 as [[x0 y0] z0], v1 as [[x1 y1] z1], v2 as [[x2 y2] z2].
+  unfold tri_repr. intros H. apply andb_true_iff in H as [H H3]. apply andb_true_iff in H as [H1 H2].
+  apply Z.ltb_lt in H1. apply Z.eqb_eq in H2. apply v3eqb_eq in H3. auto.
+Qed.
+
+(* thickened (representable facet): every drawn vertex is off the plane by 1e-3 * sqrt|vec|:
+   q * (n . (d - 1000 v0)) = +- |vec|^2  with q = sqrt|vec|, i.e. the distance times 1000 is |vec| / q = q *)
+Lemma triangle_thick_offset_lem mag v0 v1 v2 l d :
+  tri_thickened mag v0 v1 v2 = true -> make_triangle_x1000 mag v0 v1 v2 = Some l -> In d l ->
+  let n := tri_vec v0 v1 v2 in let q := tri_root v0 v1 v2 in
+  0 < q /\ q * q * (q * q) = dot3 n n /\
+  (q * dot3 n (v3sub d (v3smul 1000 v0)) = dot3 n n \/ q * dot3 n (v3sub d (v3smul 1000 v0)) = - dot3 n n).
+Proof.
+  intros H Hm Hin. unfold make_triangle_x1000 in Hm. rewrite H in Hm.
+  destruct (tri_repr v0 v1 v2) eqn:Hr; [|discriminate].
+  apply tri_repr_spec in Hr. cbv zeta in Hr. destruct Hr as [Hq [Hq4 Hdiv]].
+  inversion Hm; subst l; clear Hm. cbv zeta. split; [exact Hq|]. split; [exact Hq4|].
+  set (n := tri_vec v0 v1 v2) in *. set (q := tri_root v0 v1 v2) in *. set (e := v3div n q) in *.
+  assert (He : q * dot3 n e = dot3 n n) by (rewrite dot_smul, Hdiv; reflexivity).
+  pose proof (plane1 v0 v1 v2) as P1. pose proof (plane2 v0 v1 v2) as P2. pose proof (plane0 n v0) as P0.
+  fold n in P1, P2.
   cbn [In] in Hin.
   destruct Hin as [<-|[<-|[<-|[<-|[<-|[<-|[]]]]]]];
-    unfold tri_vec, cross3, v3sub, v3add, v3neg, v3smul, dot3; [right|right|right|left|left|left]; ring.
+    rewrite ?dot_plus, ?dot_minus, ?P0, ?P1, ?P2; [right|right|right|left|left|left]; lia.
 Qed.
 
-(* REFUTED: "the drawn vertices of a Triangle lie on its surface (within 4e-3 of its size)" *)
-Lemma triangle_on_surface_refuted_lem :
-  ~ (forall mag v0 v1 v2, triangle_on_surface mag v0 v1 v2 = true).
+(* |vec|^2 <= 12 L^4 for EVERY facet (L = largest coordinate extent) *)
+Lemma sq_bound L x y u w : 0 <= L -> -L <= x <= L -> -L <= y <= L -> -L <= u <= L -> -L <= w <= L ->
+  (x * y - u * w) * (x * y - u * w) <= 4 * (L * L) * (L * L).
 Proof.
-  intros H. specialize (H (0, 0, 1) (0, 0, 0) (100, 0, 0) (0, 100, 0)). vm_compute in H. discriminate.
+  intros HL Hx Hy Hu Hw.
+  assert (A : - (L * L) <= x * y <= L * L) by nia.
+  assert (B : - (L * L) <= u * w <= L * L) by nia.
+  set (p := x * y) in *. set (r := u * w) in *. set (M := L * L) in *. nia.
 Qed.
 
-(* at size ~1 the same facet passes: the defect is the scale law, not the hack as such *)
-Lemma triangle_unit_size_ok : triangle_on_surface (0, 0, 1) (0, 0, 0) (1, 0, 0) (0, 1, 0) = true.
+Lemma ext3_bound a b c : let e := ext3 a b c in 0 <= e /\ -e <= b - a <= e /\ -e <= c - b <= e /\ -e <= c - a <= e.
+Proof. unfold ext3. lia. Qed.
+
+Lemma tri_nn_bound v0 v1 v2 :
+  tri_nn v0 v1 v2 <= 12 * (tri_size v0 v1 v2 * tri_size v0 v1 v2) * (tri_size v0 v1 v2 * tri_size v0 v1 v2)
+  /\ 0 <= tri_size v0 v1 v2.
+Proof.
+  destruct v0 as [[x0 y0] z0], v1 as [[x1 y1] z1], v2 as [[x2 y2] z2].
+  unfold tri_nn, tri_vec, cross3, v3sub, v3add, v3neg, dot3, tri_size.
+  pose proof (ext3_bound x0 x1 x2) as Hx. pose proof (ext3_bound y0 y1 y2) as Hy. pose proof (ext3_bound z0 z1 z2) as Hz.
+  cbv zeta in Hx, Hy, Hz.
+  set (L := Z.max (ext3 x0 x1 x2) (Z.max (ext3 y0 y1 y2) (ext3 z0 z1 z2))).
+  assert (HL : 0 <= L) by (unfold L; lia).
+  assert (Ax : -L <= x1 + - x0 <= L) by (unfold L; lia). assert (Bx : -L <= x2 + - x1 <= L) by (unfold L; lia).
+  assert (Ay : -L <= y1 + - y0 <= L) by (unfold L; lia). assert (By : -L <= y2 + - y1 <= L) by (unfold L; lia).
+  assert (Az : -L <= z1 + - z0 <= L) by (unfold L; lia). assert (Bz : -L <= z2 + - z1 <= L) by (unfold L; lia).
+  pose proof (sq_bound L _ _ _ _ HL Ay Bz Az By) as S1.
+  pose proof (sq_bound L _ _ _ _ HL Az Bx Ax Bz) as S2.
+  pose proof (sq_bound L _ _ _ _ HL Ax By Ay Bx) as S3.
+  split; [|exact HL]. lia.
+Qed.
+
+(* POSITIVE (replaces the refutation of the old code): every drawn vertex of a representable facet, in either
+   branch, at EVERY size, is within 4e-3 x size of the facet's plane *)
+Lemma triangle_on_surface_lem mag v0 v1 v2 l :
+  make_triangle_x1000 mag v0 v1 v2 = Some l -> forallb (near_plane v0 v1 v2) l = true.
+Proof.
+  intros Hm. apply forallb_forall. intros d Hd. unfold near_plane. apply Z.leb_le.
+  pose proof (tri_nn_bound v0 v1 v2) as [Hb HL]. unfold tri_nn in Hb.
+  set (L := tri_size v0 v1 v2) in *. set (n := tri_vec v0 v1 v2) in *.
+  destruct (tri_thickened mag v0 v1 v2) eqn:Ht.
+  - destruct (triangle_thick_offset_lem mag v0 v1 v2 l d Ht Hm Hd) as [Hq [Hq4 Ho]].
+    fold n in Hq4, Ho. set (q := tri_root v0 v1 v2) in *.
+    set (o := dot3 n (v3sub d (v3smul 1000 v0))) in *. set (N := dot3 n n) in *.
+    assert (Hqo : q * o * (q * o) = N * N) by (destruct Ho as [-> | ->]; ring).
+    (* q^2 <= 16 L^2 because q^4 = N <= 12 L^4 *)
+    assert (Hq2 : q * q <= 4 * (L * L)).
+    { destruct (Z_le_gt_dec (q * q) (4 * (L * L))) as [Hle|Hgt]; [exact Hle|]. exfalso.
+      assert (4 * (L * L) + 1 <= q * q) by lia.
+      assert ((4 * (L * L) + 1) * (4 * (L * L) + 1) <= q * q * (q * q)) by nia. nia. }
+    (* o^2 * q^2 = N^2 = N * q^4  =>  o^2 = N * q^2 *)
+    assert (Ho2 : o * o = N * (q * q)).
+    { assert (q * q * (o * o) = q * q * (N * (q * q))).
+      { replace (q * q * (N * (q * q))) with (N * (q * q * (q * q))) by ring. rewrite Hq4. rewrite <- Hqo. ring. }
+      apply Z.mul_reg_l with (q * q); [nia|assumption]. }
+    rewrite Ho2. assert (0 <= N) by (rewrite <- Hq4; nia). nia.
+  - destruct (triangle_plain_exact_lem mag v0 v1 v2 Ht) as [E F]. rewrite E in Hm. inversion Hm; subst l.
+    rewrite Forall_forall in F. fold n in F. rewrite (F d Hd). simpl.
+    assert (0 <= dot3 n n) by (destruct n as [[a b] c]; unfold dot3; nia). nia.
+Qed.
+
+(* SCALE LAW: rescaling a representable facet by an integer s > 0 rescales the whole drawn model -- offset
+   included -- by s *)
+Lemma tri_vec_scale s v0 v1 v2 :
+  tri_vec (scale_facet s v0) (scale_facet s v1) (scale_facet s v2) = v3smul (s * s) (tri_vec v0 v1 v2).
+Proof. destruct v0 as [[x0 y0] z0], v1 as [[x1 y1] z1], v2 as [[x2 y2] z2].
+  unfold scale_facet, tri_vec, cross3, v3sub, v3add, v3neg, v3smul. apply v3_ext; ring. Qed.
+
+Lemma cross_smul_r m k n : cross3 m (v3smul k n) = v3smul k (cross3 m n).
+Proof. destruct m as [[a b] c], n as [[x y] z]. unfold cross3, v3smul. apply v3_ext; ring. Qed.
+
+Lemma v3smul_zero_iff k v : k <> 0 -> (v3smul k v = (0, 0, 0) <-> v = (0, 0, 0)).
+Proof. destruct v as [[x y] z]. unfold v3smul. intros Hk. split; intros H; inversion H.
+  - f_equal; [f_equal|]; nia.
+  - reflexivity. Qed.
+
+Lemma triangle_scale_law_lem s mag v0 v1 v2 l : 0 < s ->
+  make_triangle_x1000 mag v0 v1 v2 = Some l ->
+  make_triangle_x1000 mag (scale_facet s v0) (scale_facet s v1) (scale_facet s v2) = Some (map (v3smul s) l).
+Proof.
+  intros Hs Hm. unfold make_triangle_x1000 in *.
+  assert (Hth : tri_thickened mag (scale_facet s v0) (scale_facet s v1) (scale_facet s v2) = tri_thickened mag v0 v1 v2).
+  { unfold tri_thickened. rewrite tri_vec_scale, cross_smul_r.
+    destruct (v3eqb (cross3 mag (tri_vec v0 v1 v2)) (0, 0, 0)) eqn:E.
+    - apply v3eqb_eq in E. rewrite E. apply v3eqb_eq. unfold v3smul. f_equal; [f_equal|]; ring.
+    - destruct (v3eqb (v3smul (s * s) (cross3 mag (tri_vec v0 v1 v2))) (0, 0, 0)) eqn:E2; [|reflexivity].
+      apply v3eqb_eq in E2. apply v3smul_zero_iff in E2; [|nia]. apply v3eqb_eq in E2. congruence. }
+  rewrite Hth. destruct (tri_thickened mag v0 v1 v2).
+  2:{ inversion Hm; subst l. cbn [map]. f_equal.
+      destruct v0 as [[x0 y0] z0], v1 as [[x1 y1] z1], v2 as [[x2 y2] z2]. unfold scale_facet, v3smul.
+      repeat f_equal; ring. }
+  destruct (tri_repr v0 v1 v2) eqn:Hr; [|discriminate].
+  pose proof (tri_repr_spec _ _ _ Hr) as Hspec. cbv zeta in Hspec. destruct Hspec as [Hq [Hq4 Hdiv]].
+  set (n := tri_vec v0 v1 v2) in *. set (q := tri_root v0 v1 v2) in *. set (e := v3div n q) in *.
+  assert (Hnn : tri_nn (scale_facet s v0) (scale_facet s v1) (scale_facet s v2) = (s * q) * (s * q) * ((s * q) * (s * q))).
+  { unfold tri_nn. rewrite tri_vec_scale. fold n. unfold tri_nn in Hq4. fold n in Hq4.
+    destruct n as [[a b] c]. unfold v3smul, dot3 in *. nia. }
+  assert (Hroot : tri_root (scale_facet s v0) (scale_facet s v1) (scale_facet s v2) = s * q).
+  { unfold tri_root. rewrite Hnn. rewrite Z.sqrt_square by nia. apply Z.sqrt_square. nia. }
+  assert (Hdiv' : v3div (tri_vec (scale_facet s v0) (scale_facet s v1) (scale_facet s v2)) (s * q) = v3smul s e).
+  { rewrite tri_vec_scale. fold n. rewrite <- Hdiv. destruct e as [[e0 e1] e2]. unfold v3smul, v3div.
+    apply v3_ext.
+    - replace (s * s * (q * e0)) with (s * e0 * (s * q)) by ring. apply Z.div_mul. nia.
+    - replace (s * s * (q * e1)) with (s * e1 * (s * q)) by ring. apply Z.div_mul. nia.
+    - replace (s * s * (q * e2)) with (s * e2 * (s * q)) by ring. apply Z.div_mul. nia. }
+  assert (Hr' : tri_repr (scale_facet s v0) (scale_facet s v1) (scale_facet s v2) = true).
+  { unfold tri_repr. rewrite Hroot, Hnn, Hdiv'. rewrite tri_vec_scale. fold n.
+    apply andb_true_iff. split; [apply andb_true_iff; split|].
+    - apply Z.ltb_lt. nia.
+    - apply Z.eqb_eq. reflexivity.
+    - apply v3eqb_eq. rewrite <- Hdiv at 2. destruct e as [[e0 e1] e2]. unfold v3smul. apply v3_ext; ring. }
+  rewrite Hr', Hroot, Hdiv'. inversion Hm; subst l. cbn [map]. f_equal.
+  destruct v0 as [[x0 y0] z0], v1 as [[x1 y1] z1], v2 as [[x2 y2] z2], e as [[e0 e1] e2].
+  unfold scale_facet, v3smul, v3sub, v3add, v3neg. repeat f_equal; ring.
+Qed.
+
+(* non-vacuity: representable thickened facets exist, in and out of the coordinate planes *)
+Lemma triangle_examples :
+  make_triangle_x1000 (0, 0, 1) (0, 0, 0) (100, 0, 0) (0, 100, 0)
+    = Some [(0, 0, -100); (100000, 0, -100); (0, 100000, -100); (0, 0, 100); (100000, 0, 100); (0, 100000, 100)] /\
+  tri_repr (0, 0, 0) (3, 2, -2) (1, 3, 3) = true /\ tri_vec (0, 0, 0) (3, 2, -2) (1, 3, 3) = (12, -11, 7) /\
+  make_triangle_x1000 (0, 0, 0) (0, 0, 0) (14, -7, 21) (7, 14, 0) <> None.
+Proof. vm_compute. repeat split; discriminate. Qed.
+
+(* RECORD: the code before 2fa0af8 drew the same facet 10 units (10% of its size) off its plane *)
+Lemma triangle_pre_2fa0af8_record :
+  existsb (fun d => negb (near_plane (0, 0, 0) (100, 0, 0) (0, 100, 0) d))
+          (make_triangle_pre_2fa0af8_x1000 (0, 0, 1) (0, 0, 0) (100, 0, 0) (0, 100, 0)) = true.
 Proof. vm_compute. reflexivity. Qed.
